@@ -440,6 +440,16 @@ def workflow(rep, N, hloc, Ls, p, lam, Sech, ana, seed):
 			net_d.nodes_by_index[idx(1)].stockout_cost = 0
 			net_d.nodes_by_index[idx(1)].stockout_cost_function = (lambda pp: (lambda il: pp * max(0, -il)))(p)
 			tot_d = simulation(net_d, 300, rand_seed=seed % 10 ** 6, progress_bar=False)
+			# the documented options that only switch diagnostics (the consistency checks off, or raising instead of warning) leave the trajectory alone
+			tots_cc = {}
+			for cc_ in ('N', 'E'):
+				net_e = build()
+				for i, v in want_loc.items():
+					net_e.nodes_by_index[i].inventory_policy.base_stock_level = v
+				tots_cc[cc_] = simulation(net_e, 300, rand_seed=seed % 10 ** 6, progress_bar=False, consistency_checks=cc_)
+		for cc_, tot_e in tots_cc.items():
+			if tot_e != tot_b:
+				out.append("simulation(consistency_checks=%r) gives total cost %r over 300 periods; with the default setting %r (same system, same seed)" % (cc_, tot_e, tot_b))
 		if abs(tot_d - tot_b) > 1e-9 * max(1, abs(tot_b)):
 			out.append('stockout penalty given as the function IL -> p * max(0, -IL) gives total cost %r over 300 periods; given as the rate p it gives %r (same seed)' % (tot_d, tot_b))
 		if tot_c != tot_b:
